@@ -3,6 +3,7 @@ package props
 import (
 	"context"
 	"fmt"
+	"sort"
 	"strings"
 	"time"
 	"unicode"
@@ -557,7 +558,12 @@ func runC11(w *h.W, batch int) {
 		if nt && w.WantSample() {
 			w.Sample(map[string]any{"case": desc, "obligations": len(obs), "queries": queries})
 		}
-		w.Held(strings.Join(cl, "+")+"|"+cfg, nt)
+		var fl []string
+		for f := range present {
+			fl = append(fl, f)
+		}
+		sort.Strings(fl)
+		w.Held(strings.Join(cl, "+")+"|"+cfg+"|"+strings.Join(fl, ","), nt)
 	}
 }
 
